@@ -109,6 +109,47 @@ func genPMap(cfg Config, emit func(string, bool, []string)) {
 				add("meq %d %d", m4, nm-1)
 			}
 		}
+		if c%20 == 9 {
+			// keys nested 34-40 levels deep (every proper prefix is a key too, so the path to the deepest
+			// key runs through as many nodes), deepest ones removed in a Map and a Set
+			depth := 34 + r.IntN(7)
+			from := "mfrom 0"
+			snew := "snew"
+			for i := 1; i <= depth; i++ {
+				k := []byte(strings.Repeat("a", i))
+				from += fmt.Sprintf(" %s %d", hx(k), i)
+				snew += " " + hx(k)
+				if i%3 == 0 {
+					sib := append([]byte(strings.Repeat("a", i-1)), 'b')
+					from += fmt.Sprintf(" %s %d", hx(sib), 100+i)
+					snew += " " + hx(sib)
+				}
+			}
+			add("%s", from)
+			nm++
+			add("%s", snew)
+			ns++
+			for _, d := range []int{depth, depth - 1, 33, depth - 2} {
+				k := []byte(strings.Repeat("a", d))
+				add("mdel %d %s", nm-1, hx(k))
+				nm++
+				add("mget %d %s", nm-1, hx(k))
+				add("mlen %d", nm-1)
+				add("mall %d", nm-1)
+				add("mlb %d %s", nm-1, hx([]byte(strings.Repeat("a", 30))))
+				add("sdel %d %s", ns-1, hx(k))
+				ns++
+				add("shas %d %s", ns-1, hx(k))
+				add("sall %d", ns-1)
+			}
+			add("mtxn %d", nm-1)
+			add("tdel %s", hx([]byte(strings.Repeat("a", depth-3))))
+			add("tdel %s", hx([]byte(strings.Repeat("a", depth-4))))
+			add("tall")
+			add("tcommit")
+			nm++
+			add("mall %d", nm-1)
+		}
 		if c%10 == 7 {
 			// threshold walker: a key that is a prefix of `top` others, which are removed one by one
 			// across the node-size boundaries (49/48, 17/16, 5/4), in a Map and in a Set
